@@ -91,6 +91,8 @@ type Base struct {
 	ColdResources []string
 	Unsynced      []string
 	afterSync     []func()
+	// Tombstones: every deletion reaches the handlers as a DeletedFinalStateUnknown tombstone.
+	Tombstones bool
 	// Property is the property being checked (set by the scenario factory).
 	Property string
 	// FaultLog lists the injected faults of this history as features ("fault:update/jobs/status=conflict").
@@ -135,7 +137,14 @@ func NewBase(cfgs map[configv1alpha1.ConfigName]runtime.Object, withWebhooks boo
 // Start builds the controller process for the first time.
 func (b *Base) Start() {
 	b.Ctx = sim.NewContext(b.API, "ctrl", false, b.Configs)
+	b.applyTombstones()
 	b.Build(b)
+}
+
+func (b *Base) applyTombstones() {
+	for _, inf := range b.Ctx.Set.All() {
+		inf.Tombstones = b.Tombstones
+	}
 }
 
 // Restart discards all in-memory controller state and rebuilds from the API.
@@ -162,6 +171,7 @@ func (b *Base) Restart() {
 	} else {
 		b.Ctx = sim.NewContext(b.API, "ctrl", false, b.Configs)
 	}
+	b.applyTombstones()
 	b.Build(b)
 }
 
